@@ -103,7 +103,8 @@ EDITS = ["add-type", "remove-field", "add-field", "retype-field", "add-optional-
          "retype-input-field", "input-field-default", "add-enum-value", "remove-enum-value", "deprecate", "undeprecate",
          "deprecation-reason", "add-union-member", "remove-union-member", "add-interface-implementation",
          "remove-interface-implementation", "add-directive", "remove-directive", "add-directive-location", "remove-directive-location",
-         "add-directive-argument", "remove-directive-argument", "retype-directive-argument", "remove-type", "change-leaf-kind"]
+         "add-directive-argument", "remove-directive-argument", "retype-directive-argument", "remove-type", "change-leaf-kind",
+         "mirror-nullability", "mirror-nullability"]
 
 
 def apply_edit(draw, s, kind, uid, protected=None):
@@ -133,6 +134,36 @@ def apply_edit(draw, s, kind, uid, protected=None):
         return {"kind": kind, "classes": classes, "tokens": tokens, "breaking": breaking, "compatible_retype": compatible,
                 "under_wrapper": under_wrapper}
 
+    if kind == "mirror-nullability":
+        # the same textual type change at an output and at an input position in one diff (safe for one, breaking for the other)
+        pairs = []
+        for n in plain_objs:
+            for f in types[n]["fields"]:
+                for n2 in plain_objs:
+                    for f2 in types[n2]["fields"]:
+                        for a in f2.get("args") or []:
+                            if a["type"] == f["type"] and "default" not in a and f2 is not f:
+                                pairs.append((n, f, n2, f2, a))
+        if not pairs:
+            return None
+        n, f, n2, f2, a = draw(st.sampled_from(pairs))
+        t = GS.parse_t(f["type"])
+        depth = draw(st.integers(0, f["type"].count("[")))
+
+        def toggle(t, d):
+            if d == 0:
+                return t[1] if t[0] == "nn" else ("nn", t)
+            if t[0] == "nn":
+                return ("nn", toggle(t[1], d))
+            return ("list", toggle(t[1], d - 1))
+        new = GS.show_t(toggle(t, depth))
+        old = f["type"]
+        f["type"] = new
+        a["type"] = new
+        oc = output_compatible(GS.parse_t(old), GS.parse_t(new))
+        ic = input_compatible(GS.parse_t(old), GS.parse_t(new))
+        return [out(["FieldChangedType"], [n, f["name"]], not oc, oc, old.count("[") > 0),
+                out(["FieldArgumentChangedType"], [n2, f2["name"], a["name"]], not ic, ic, old.count("[") > 0)]
     if kind == "add-type":
         n = "Added%d" % uid
         types[n] = {"kind": "object", "name": n, "interfaces": [], "fields": [{"name": "x", "type": "Int", "args": []}]}
@@ -517,6 +548,14 @@ def check_case(case, ctx=None):
 def cases(draw):
     spec = H.sdl_view(draw(GS.specs(rich=True, with_subscription=draw(st.integers(0, 4)) == 0)))
     spec["directives"] = [{"name": "cd", "locations": ["FIELD", "QUERY"], "args": [{"name": "n", "type": "Int", "default": 1}, {"name": "s", "type": "[String!]"}], "desc": None}]
+    if draw(st.booleans()):
+        # make an argument's type coincide with an output field's leaf type (base schema, both sides of the diff)
+        outs = [f for n in spec["order"] if spec["types"][n]["kind"] == "object" and not spec["types"][n].get("interfaces")
+                for f in spec["types"][n]["fields"] if spec.is_leaf(GS.named(GS.parse_t(f["type"])))]
+        args = [a for n in spec["order"] if spec["types"][n]["kind"] == "object" and not spec["types"][n].get("interfaces")
+                for f in spec["types"][n]["fields"] for a in f.get("args") or [] if "default" not in a]
+        if outs and args:
+            draw(st.sampled_from(args))["type"] = draw(st.sampled_from(outs))["type"]
     old = json.loads(json.dumps(spec))
     new = GS.Spec(json.loads(json.dumps(spec)))
     edits = []
@@ -532,7 +571,7 @@ def cases(draw):
             new = GS.Spec(backup)   # the edit would interfere with an earlier one: undo it
             continue
         if e:
-            edits.append(e)
+            edits.extend(e if isinstance(e, list) else [e])
     ops = [draw(GD.requests(GS.Spec(old), multi_op=False))["text"] for _ in range(2)] if edits else []
     return {"old": old, "new": json.loads(json.dumps(new)), "edits": edits, "operations": ops,
             "mode_old": draw(st.sampled_from(["sdl", "code"])), "mode_alt": draw(st.sampled_from(["sdl", "code"])),
